@@ -77,6 +77,8 @@ class ModelRegistry:
             return ClsRef(dotted)
         if dotted == 'dataclasses.field':
             return LibFn('dataclasses.field', lambda it_, ca: None)
+        if dotted == 'dataclasses.replace':
+            return LibFn('dataclasses.replace', self.dataclass_replace)
         if dotted == 'contextlib.suppress':
             return LibFn('contextlib.suppress', lambda it_, ca: SuppressCM(ca.args))
         if dotted == 'functools.partial':
@@ -92,6 +94,37 @@ class ModelRegistry:
         if dotted.startswith(self.TYPING_PREFIXES) or dotted in ('typing', 'abc'):
             return LibRef(dotted)
         return LibRef(dotted)
+
+    def dataclass_replace(self, it, ca):
+        """dataclasses.replace(obj, **changes): a new instance of type(obj) built by its __init__ from the current
+        field values with the changes applied (init=False fields are re-initialised, __post_init__ runs)"""
+        obj = ca.args[0]
+        if not isinstance(obj, Ref) or it.class_of_ref(obj) is None:
+            raise Unsupported(f'dataclasses.replace of {obj!r}')
+        ci = it.class_of_ref(obj)
+        used(it, 'dataclasses.replace: new instance via __init__ with the current init-field values and the changes')
+        fields = []
+        for c in reversed(it.repo.mro(ci)):
+            if isinstance(c, ClassInfo) and c.is_dataclass:
+                for name, default in c.ann_fields:
+                    init_flag = True
+                    if isinstance(default, ast.Call) and ast.unparse(default.func) == 'field':
+                        for kw in default.keywords:
+                            if kw.arg == 'init' and isinstance(kw.value, ast.Constant) and kw.value.value is False:
+                                init_flag = False
+                    fields = [f for f in fields if f[0] != name]
+                    fields.append((name, init_flag))
+        kwargs = {}
+        for name, init_flag in fields:
+            if not init_flag:
+                if name in ca.kwargs:
+                    it.raise_builtin('ValueError', f'field {name} is declared with init=False')
+                continue
+            kwargs[name] = ca.kwargs[name] if name in ca.kwargs else it.st.getf(obj, name)
+        extra = set(ca.kwargs) - {n for n, _ in fields}
+        if extra:
+            it.raise_builtin('TypeError', f'unexpected fields {sorted(extra)}')
+        return it.instantiate(ClsRef(ci.key, ci), CallArgs([], kwargs))
 
     def global_value(self, it, mi, expr):
         """value of a module-level assignment of /repo, evaluated once per path"""
